@@ -283,10 +283,27 @@ def part_mixed_user(_):
     return st
 
 
+USER_NG = [
+    ['type', 'NG', 'g0', None],
+    ['unit', 'NG', 'gneg', ['scaled', 'F:-1/4', 'g0']],      # negative scale
+    ['unit', 'NG', 'kgneg', ['scaled', 'i:1000', 'gneg']],
+    ['unit', 'NG', 'g2', ['scaled', 'i:2', 'g0']],
+    ['unit', 'NG', 'g1b', ['scaled', 'i:1', 'g0']],          # scale-1 alias
+]
+
+
+def group_world(tname):
+    w = World(catalogue=True)
+    if tname == 'NG':           # only in a fresh fork
+        for ev in USER_NG:
+            w.must(ev)
+    return w
+
+
 def part_group(part, amts, triple_amts):
     tname, s1 = part
     st = Stats()
-    w = World(catalogue=True)
+    w = group_world(tname)
     syms = w.tm[tname].units
     for s2 in syms:
         for a1 in amts:
@@ -333,6 +350,9 @@ def replay(case):
         st = fork_call(part_mixed_user, 0)
         return [(sig, ent[1]) for sig, ent in st.viol.items()]
     w = World(catalogue=True)
+    for k in ('pair', 'triple'):
+        if k in case and case[k][0] == 'NG':
+            w = group_world('NG')
     if 'mixed' in case:
         return run_mixed(w, *case['mixed'])
     if 'number' in case:
@@ -358,6 +378,8 @@ def run(tier, seed):
                ['D:0.000001', 'i:1000000000000', 'D:0.5']]
     parts = [(t, s) for t in O.LINEAR_TYPES for s in O.CATALOGUE[t][3]]
     total.merge(pmap(part_group, parts, (amts, triples)))
+    total.merge(pmap(part_group, [('NG', ev[2]) for ev in USER_NG],
+                     (amts, triples), fresh=True))
     total.merge(pmap(part_temp, [['°C'], ['°F'], ['K']], (amts,)))
     total.sample({'pair': ['Length', 'mi', 'D:1.005', 'in', 'F:-2/7'],
                   'checks': 'add sub neg abs sum commutative inverse '
@@ -368,7 +390,8 @@ def run(tier, seed):
     return total, dict(
         rule="every unit x every other type (2 units each) x 9 operators; "
              "every unit x 8 number kinds x 8 operators x both orders; per "
-             "linear type all ordered unit pairs x amount pairs (add, sub, "
+             "linear type (predefined ones and a user type with negative, equal "
+             "and alias scales) all ordered unit pairs x amount pairs (add, sub, "
              "neg, abs, sum, commutativity, inverse, distributivity) and all "
              "unit triples x 3 amount triples (associativity); temperature: "
              "all unit pairs x amount pairs. non-trivial = different units "
